@@ -8,10 +8,13 @@ SPEC = {
                  'C28_all_signed_oracle_refuted', 'C28_all_signed_oracle_partial', 'C28_chain_clean_oracle_partial',
                  'C28_fix_all_signed_oracle',
                  'C28_node_refines', 'C28_node_chain_checked', 'C28_all_signed_refuted', 'C28_all_signed_partial',
-                 'C28_pool_signed_partial', 'C28_chain_clean_partial', 'C28_fix_all_signed', 'C28_hypotheses_satisfiable'],
+                 'C28_pool_signed_partial', 'C28_chain_clean_partial', 'C28_fix_all_signed', 'C28_hypotheses_satisfiable',
+                 'C28_block_cache_unobservable', 'C28_block_cache_nonvacuous'],
     'allowed_axioms': [],
     'shard': 16,
-    'rule': 'one case = one history on a fresh memdb test node (pack window low/high from {(2,3),(1,1),(1,2),(3,2)}, miner '
+    'rule': 'one case = one history on a fresh memdb test node (pack window low/high from {(2,3),(1,1),(1,2),(3,2)}, in-memory '
+            'block cache BlockChain.DefCacheSize 128 (default) / 1 / 3 blocks in turn - the cache size is not part of the '
+            'Coq case: the same model must explain every size -, miner '
             'stopped, three funded accounts): peer blocks built by hand on a factory node (real TxHash/StateHash; when the '
             'factory would drop a transaction the block is rebuilt with the intended list) and delivered through '
             'BlockChain.ProcessBlock(pid = a peer), producer blocks through ProcessBlock(pid = "self"), offers to the '
@@ -33,7 +36,15 @@ SPEC = {
             'replaced blocks, of the common prefix and of itself; later blocks repeat transactions of both branches; '
             'sometimes the old trunk wins again), reorg-window (a TxHeight transaction exactly low+high blocks below the tip '
             'is offered again by the side branch that replaces the tip: the disconnection must bring its block back into '
-            'the cache window), edge steps (block time / height exactly at, one before and one after the end of validity, '
+            'the cache window), reorg-evict (every 8th case, own sequence: the node keeps only 1 .. low+high blocks in '
+            'memory - or low+high+1, the boundary -, so the block that txHashCache.Del must bring back into the window on a '
+            'disconnection has left the in-memory block cache and has to come from the database; the 1-3 trunk blocks that '
+            'leave the window when the trunk reaches its top carry one TxHeight transaction each, packed at the first height '
+            'of its validity; a side branch from 1-3 below the tip, half of the time with heavier blocks, repeats one of them '
+            'at the LAST height where it is unexpired (must be refused with ErrTxDup, the transaction stays on the chain '
+            'once), or an earlier one at that height, or one whose window ended one block before (expired; a block on top '
+            'of it makes the node switch over and judge it), or none; afterwards the same transactions again through peer '
+            'and producer blocks on whatever tip the node has), edge steps (block time / height exactly at, one before and one after the end of validity, '
             'both ends of the TxHeight window), forgery / linear-any (T pooled, then a block with T\'s body under another '
             'key: the open finding). Streams with groups: group-linear (5-10 '
             'steps: group blocks from peers and for the producer among single transactions, earlier groups or parts of '
@@ -74,6 +85,12 @@ SPEC = {
         'disconnected blocks came back (NSync; the theorems hold for every such answer). Within one multi-block '
         'delivery the generators keep forgeries of pooled/replaced bodies out',
         'which branch the node follows is not modelled (C25): the operation list is derived from the observed tips',
+        'the in-memory block cache (BlockCache, DefCacheSize blocks) is an implementation detail that must not be '
+        'observable: the checked model reads every block from the main chain (block_at = BlockChain.GetBlock); '
+        'C28_block_cache_unobservable shows for the read-through look-up of ModelMem.v (hash of the height from the store, '
+        'block from memory if present, else from the database) that any coherent memory content (mem_ok: a block in memory '
+        'under a main-chain hash is that block - block hashes determine blocks) gives the same states; on the node this '
+        'is tested by running the histories with cache sizes from 1 block to the default, not by observing the cache',
     ],
     'assumptions': [
         'main chain (not para, no para executors in groups), TxHeight enabled, ForkCheckTxDup / ForkTxHeight / ForkBlockCheck / '
